@@ -1608,10 +1608,9 @@ var rR17c = RuleRef{Name: "R17c", Doc: "every pattern element is matched on its 
 	}
 	n := 0
 	var bad []string
-	for _, fn := range append([]*ssa.Function{pm}, helperScope(pm, 2)...) {
-		if fn.Pkg != pm.Pkg {
-			continue
-		}
+	// the element loop is the outermost loop of the matcher itself (a helper that scans the inside of one set has a
+	// loop of its own, which legitimately remembers whether a member matched)
+	for _, fn := range []*ssa.Function{pm} {
 		loops := naturalLoops(fn)
 		for head, body := range loops {
 			// outermost loops only: a header that lies in no other loop's body
